@@ -30,7 +30,7 @@ From Coq Require Import Reals List Arith Lra.
 From Coquelicot Require Import Coquelicot.
 From Interval Require Import Tactic.
 From Aegean Require Import Lib.RBase Gen.Sphere Lib.Sphere Gen.Gauss Gen.Recovery Model.FitModel Model.Recovery
-     Proofs.GaussProofs Proofs.RecoveryProofs Props.C04.
+     Proofs.GaussProofs Proofs.RecoveryProofs Props.C04 Gen.SmallIsland Model.SmallIsland Proofs.SmallIslandProofs.
 Import ListNotations.
 Open Scope R_scope.
 
@@ -127,6 +127,21 @@ Theorem C01_recovery : forall P S psf_a psf_b bmaj bmin minimize full_rank s xmi
   = injected bmaj bmin s.
 Proof. exact c01_recovery. Qed.
 
+(* which islands are given the six-parameter fit that C01_recovery is about (leaves regenerated from estimate_lmfit_parinfo /
+   _fit_island): every component of an island has its shape fitted exactly when the island has more than 6 finite pixels, is more
+   than 2 pixels across and has 6 pixels per component; FIXED2PSF is set exactly for islands of at most 6 pixels or at most 2 pixels
+   across (recorded finding (d): a faint source larger than the beam can have such an island), and then only then is no flag set.
+   An island 3 pixels across IS fitted: a tree that fixes it to the psf generates another si_tiny_dim and these lemmas fail. *)
+Theorem C01_six_parameter_fit : forall npix mindim ncomp : Z, (0 < ncomp)%Z ->
+  (shape_fitted npix mindim ncomp = true <-> (6 < npix /\ 2 < mindim /\ 6 * ncomp <= npix)%Z).
+Proof. exact shape_fitted_iff. Qed.
+Theorem C01_fixed2psf_iff : forall npix mindim ncomp : Z,
+  si_has (fit_flags npix mindim ncomp) si_FIXED2PSF = false <-> (6 < npix /\ 2 < mindim)%Z.
+Proof. exact fixed2psf_iff. Qed.
+Theorem C01_unflagged_iff : forall npix mindim ncomp : Z, (0 < ncomp)%Z ->
+  (fit_flags npix mindim ncomp = 0%N <-> (6 < npix /\ 2 < mindim /\ 6 * ncomp <= npix)%Z).
+Proof. exact unflagged_iff. Qed.
+
 (* the reported uncertainties of the axes are the propagated ones, in sky units: err_a (err_b) is the great-circle distance, in
    arcseconds, between the sky images of the end of the FWHM major (minor) axis and of the same end when the fitted standard
    deviation is one standard error larger *)
@@ -179,6 +194,10 @@ Proof. intros amp rms Ha Hr. pose proof c105_val. nra. Qed.
 Example C01_example_start : in_box (mkSummit 1 10 10 (1/100) 5 4 3 3 9 9) (start_of (mkSummit 1 10 10 (1/100) 5 4 3 3 9 9) 0).
 Proof. apply start_in_box; cbn; lra. Qed.
 
+(* the two recorded thin islands: 10 x 3 pixels is fitted, 2 x 7 pixels is fixed to the psf *)
+Example C01_example_islands : shape_fitted 28 3 1 = true /\ shape_fitted 14 2 1 = false /\ fit_flags 14 2 1 = 4%N.
+Proof. vm_compute. auto. Qed.
+
 Print Assumptions C01_conversion_inverse.
 Print Assumptions C01_minor_bound_partial.
 Print Assumptions C01_canonical_partial.
@@ -187,5 +206,7 @@ Print Assumptions C01_jacobian_true.
 Print Assumptions C01_jacobian_whitened.
 Print Assumptions C01_truth_within_bounds_partial.
 Print Assumptions C01_recovery.
+Print Assumptions C01_six_parameter_fit.
+Print Assumptions C01_fixed2psf_iff.
 Print Assumptions C01_err_axes.
 Print Assumptions C01_err_axes_follow_shape.
